@@ -676,6 +676,14 @@ Fixpoint take_names (vs : list bval) (sup : list name) : option (list (name * bv
               end
   end.
 
+(* a division can trap: since fix 32a0c6b (finding C02-cse-hoists-trapping-division) it is never hoisted;
+   hoist_div = true is the pass before that fix *)
+Definition bval_divmod (v : bval) : bool := match v with BVBin op _ _ => is_divmod op | _ => false end.
+Definition cse_common (hoist_div : bool) (set1 set2 : bset) : list bval :=
+  filter (fun e => hoist_div || negb (bval_divmod e)) (filter (fun e => bset_mem e set2) set1).
+
+Section Cse.
+Variable hd : bool.
 Fixpoint cse_stmt (st : stmt) (set : bset) (sup : list name) {struct st} : option (list stmt * bset * list name) :=
   let fix go (ss : list stmt) (sup : list name) : option (list stmt * bset * list name) :=
     match ss with
@@ -704,7 +712,7 @@ Fixpoint cse_stmt (st : stmt) (set : bset) (sup : list name) {struct st} : optio
           match go s2 sup1 with
           | None => None
           | Some (s2', set2, sup2) =>
-              let common := filter (fun e => bset_mem e set2) set1 in
+              let common := cse_common hd set1 set2 in
               (* pushed after the if-else in decreasing order while walking in reverse *)
               match take_names (rev common) sup2 with
               | None => None
@@ -729,30 +737,41 @@ Fixpoint cse_stmts (ss : list stmt) (sup : list name) : option (list stmt * bset
           end
       end
   end.
+End Cse.
 (* optimize_function; None = the supply of fresh names is too short *)
-Definition cse (sup : list name) (f : func) : option func :=
-  match cse_stmts (f_body f) sup with
-  | Some (body, _, _) => Some (mkfunc (f_params f) body (f_ret f))
+Definition cse_gen (hd : bool) (sup : list name) (f : func) : option (func * list name) :=
+  match cse_stmts hd (f_body f) sup with
+  | Some (body, _, sup') => Some (mkfunc (f_params f) body (f_ret f), sup')
   | None => None
   end.
+Definition cse (sup : list name) (f : func) : option func := option_map fst (cse_gen false sup f).
+Definition cse_old (sup : list name) (f : func) : option func := option_map fst (cse_gen true sup f).   (* before fix 32a0c6b *)
 
 (* ======================================================================== the per-function pipeline *)
 (* lib.rs optimize_function_for_one_round / optimize_function_for_rounds, restricted to the modelled passes
-   (scalar replacement, the loop optimisations and common subexpression elimination are switched off by the
-   OptimizationConfiguration; local value numbering is a configuration flag):
-     one round  = ccp; [lvn]; dce          rounds = round; round; ccp; dce; ccp
-   The flags of the ccp applications are or-ed. *)
-Definition then_ccp (r : option (func * fl)) : option (func * fl) :=
+   (scalar replacement and the loop optimisations are switched off by the OptimizationConfiguration; common
+   subexpression elimination and local value numbering are configuration flags):
+     one round  = ccp; [cse]; [lvn]; dce          rounds = round; round; ccp; dce; ccp
+   The state carries the or-ed flags of the ccp applications and the supply of fresh names for cse. *)
+Definition pst := (func * fl * list name)%type.
+Definition then_ccp (r : option pst) : option pst :=
   match r with
-  | Some (f, fl1) => match ccp f with Some (f', fl2) => Some (f', orf fl1 fl2) | None => None end
+  | Some (f, fl1, s) => match ccp f with Some (f', fl2) => Some (f', orf fl1 fl2, s) | None => None end
   | None => None
   end.
-Definition then_pure (p : func -> func) (r : option (func * fl)) : option (func * fl) :=
-  match r with Some (f, fl1) => Some (p f, fl1) | None => None end.
-Definition one_round (lvn_on : bool) (r : option (func * fl)) : option (func * fl) :=
-  then_pure dce (then_pure (if lvn_on then lvn else fun f => f) (then_ccp r)).
-Definition pipeline (lvn_on : bool) (f : func) : option (func * fl) :=
-  then_ccp (then_pure dce (then_ccp (one_round lvn_on (one_round lvn_on (Some (f, fl0)))))).
+Definition then_pure (p : func -> func) (r : option pst) : option pst :=
+  match r with Some (f, fl1, s) => Some (p f, fl1, s) | None => None end.
+Definition then_cse (on : bool) (r : option pst) : option pst :=
+  if on then
+    match r with
+    | Some (f, fl1, s) => match cse_gen false s f with Some (f', s') => Some (f', fl1, s') | None => None end
+    | None => None
+    end
+  else r.
+Definition one_round (lvn_on cse_on : bool) (r : option pst) : option pst :=
+  then_pure dce (then_pure (if lvn_on then lvn else fun f => f) (then_cse cse_on (then_ccp r))).
+Definition pipeline (lvn_on cse_on : bool) (sup : list name) (f : func) : option pst :=
+  then_ccp (then_pure dce (then_ccp (one_round lvn_on cse_on (one_round lvn_on cse_on (Some (f, fl0, sup)))))).
 (* decidable: none of the five applications of ccp met dead final operands (see dead_final_operands) *)
-Definition pipeline_no_dead_final_operands (lvn_on : bool) (f : func) : Prop :=
-  match pipeline lvn_on f with Some (_, fl) => fst fl = false | None => True end.
+Definition pipeline_no_dead_final_operands (lvn_on cse_on : bool) (sup : list name) (f : func) : Prop :=
+  match pipeline lvn_on cse_on sup f with Some (_, fl, _) => fst fl = false | None => True end.
